@@ -82,7 +82,8 @@ func (w *c7World) doClose(who string) {
 	w.r.Logf("%s: Close() returned %v", who, err)
 	// at the very instant a Close call returns (also a repeated or overlapping one) the tear-down it promises is complete
 	if !pan {
-		if alive := LibGoroutinesAlive(w.r.Sim, "gochannel.(*GoChannel).Subscribe", "message.(*messageTransformSubscriberDecorator).Subscribe"); len(alive) > 0 {
+		// (the goroutines Close has to wait for: the per-subscription tear-down / replay goroutines and the decorator pumps)
+		if alive := LibGoroutinesCreatedBy(w.r.Sim, "gochannel.(*GoChannel).Subscribe", "message.(*messageTransformSubscriberDecorator).Subscribe"); len(alive) > 0 {
 			g := alive[0]
 			w.r.Fail("C07.R5", "a Close call returned while subscription tear-down goroutines were still running", "%s: %d goroutines, e.g. g%d created by %s, %s at %s", who, len(alive), g.ID, g.Created, g.State, g.Site)
 		}
